@@ -29,6 +29,7 @@ type Contract struct {
 	Lets     []*LetClause
 	NoInline bool
 	Entry    []*EntryGhost
+	Exit     []*EntryGhost
 }
 
 type GhostParam struct {
@@ -89,6 +90,7 @@ type Contracts struct {
 	GhostOrder []string
 	SpecFuns map[string]*SpecFun
 	File   string
+	Globals []*Clause
 }
 
 func contractsPath() string {
@@ -100,7 +102,7 @@ var clauseKeywords = map[string]bool{
 	"loop": true, "modifies": true, "ghost": true, "safety": true, "pure": true,
 	"pred": true, "ghostvar": true, "at": true, "trusted": true, "may_panic": true,
 	"let": true, "specfun": true, "axiom": true, "noinline": true, "end": true,
-	"entry": true, "modset": true,
+	"entry": true, "modset": true, "exit": true, "global": true,
 }
 
 // EntryGhost is a ghost assignment executed when the function is entered.
@@ -253,6 +255,14 @@ func parseContracts(path string) (*Contracts, error) {
 				return nil, err
 			}
 			curSpec.Axioms = append(curSpec.Axioms, cl)
+		case "global":
+			// global <expr>: package-level invariant assumed on entry of every
+			// function under contract (e.g. sentinel errors are non-nil)
+			cl, err := mkClause(r.text, r.line)
+			if err != nil {
+				return nil, err
+			}
+			cs.Globals = append(cs.Globals, cl)
 		case "modset":
 			// modset name = target, target, ...
 			eq := strings.Index(r.text, "=")
@@ -312,6 +322,17 @@ func parseContracts(path string) (*Contracts, error) {
 					return nil, fmt.Errorf("%s:%d: ghost name type", path, r.line)
 				}
 				cur.Ghosts = append(cur.Ghosts, GhostParam{fs[0], fs[1]})
+			case "exit":
+				// exit ghost.x = expr : ghost assignment executed on return (may mention results)
+				eq := strings.Index(r.text, "=")
+				if eq < 0 || !strings.HasPrefix(strings.TrimSpace(r.text), "ghost.") {
+					return nil, fmt.Errorf("%s:%d: exit ghost.<name> = expr", path, r.line)
+				}
+				e, err := parseExpr(strings.TrimSpace(r.text[eq+1:]))
+				if err != nil {
+					return nil, fmt.Errorf("%s:%d: %v", path, r.line, err)
+				}
+				cur.Exit = append(cur.Exit, &EntryGhost{Name: strings.TrimPrefix(strings.TrimSpace(r.text[:eq]), "ghost."), Expr: e, Src: r.text})
 			case "entry":
 				// entry ghost.x = expr
 				eq := strings.Index(r.text, "=")
@@ -363,8 +384,8 @@ func parseContracts(path string) (*Contracts, error) {
 			case "at":
 				// at call <callee>#<n> assert <expr>
 				fs := strings.SplitN(r.text, " ", 4)
-				if len(fs) < 4 || fs[0] != "call" || fs[2] != "assert" {
-					return nil, fmt.Errorf("%s:%d: at call <callee>#<n> assert <expr>", path, r.line)
+				if len(fs) < 4 || (fs[0] != "call" && fs[0] != "select") || fs[2] != "assert" {
+					return nil, fmt.Errorf("%s:%d: at call|select <callee>#<n> assert <expr>", path, r.line)
 				}
 				callee := fs[1]
 				n := 0
@@ -376,7 +397,7 @@ func parseContracts(path string) (*Contracts, error) {
 				if err != nil {
 					return nil, err
 				}
-				cur.Asserts = append(cur.Asserts, &AnchoredAssert{Kind: "call", Callee: callee, N: n, Clause: cl})
+				cur.Asserts = append(cur.Asserts, &AnchoredAssert{Kind: fs[0], Callee: callee, N: n, Clause: cl})
 			}
 		}
 	}
